@@ -359,10 +359,12 @@ REST_MODELS = [
     ('free root with a hinge child and a slide child, limited', [dict(parent=-1, joints=('f',)), dict(parent=0, joints=('h',)), dict(parent=0, joints=('s',))]),
     ('world-attached slide rail with a hinge child, limited', [dict(parent=-1, joints=('s',)), dict(parent=0, joints=('h',))]),
     ('world-attached hinge with a slide-hinge stack child, limited', [dict(parent=-1, joints=('h',)), dict(parent=0, joints=('s', 'h'))]),
+    # round 11 (D11): the hinge listed BEFORE the slide -- the slide then moves along the axis carried by the hinge
+    ('free root with a hinge-slide stack child, limited', [dict(parent=-1, joints=('f',)), dict(parent=0, joints=('h', 's'))]),
 ]
 
 
-def rest(U, rep, tier, rule='R4.5', backends=('spring', 'positional', 'generalized')):
+def rest(U, rep, tier, rule='R4.5', backends=('spring', 'positional', 'generalized'), models=None):
   """R4.5 (Newton's first law): a system at rest (qd = 0) in a joint configuration strictly inside its limits, without
   gravity, control, contact or joint springs, is still at rest after one step.  pipeline.init / step are executed by
   random interpretation on consistent states (x = forward(q)); the ranges are symbolic (they need not contain 0) and
@@ -373,7 +375,7 @@ def rest(U, rep, tier, rule='R4.5', backends=('spring', 'positional', 'generaliz
   s0 = int(os.environ.get('VERIF_SEED', '0') or 0)
   for backend in backends:
     f = U.func('brax.%s.pipeline.step' % backend)
-    for name, links in REST_MODELS:
+    for name, links in (models or REST_MODELS):
       if backend == 'positional' and any(len(l['joints']) > 1 for l in links):
         # the positional 2-dof kernel reads the middle Euler angle through arccos * sign, outside the interpreted
         # fragment (as in C08): every trial would be undecided
